@@ -12,6 +12,9 @@ import (
 
 	"mellium.im/xmlstream"
 	"mellium.im/xmpp"
+	"mellium.im/xmpp/jid"
+	"mellium.im/xmpp/mux"
+	"mellium.im/xmpp/receipts"
 	"mellium.im/xmpp/stanza"
 	"verif.sim/simrt"
 )
@@ -199,6 +202,10 @@ func replyXML(p *peerReply) string {
 
 func runC06(rc *RC) {
 	ch := rc.Ch
+	if ch.Chance("workload", 1, 4) {
+		runC06Receipts(rc)
+		return
+	}
 	opts := E2Opts{S2S: ch.Chance("workload", 1, 6), Chunk: ch.Chance("workload", 1, 2)}
 	strat := rc.S.ConfigureStrategy()
 	e := rc.NewE2(opts)
@@ -474,6 +481,154 @@ func runC06(rc *RC) {
 		}
 	}
 	// wind down: peer closes, Serve returns
+	rc.Spawn("peer-close", func() { io.WriteString(e.Peer, closeTag) })
+	rc.S.Run(func() bool { return e.ServeDone }, 20000, time.Minute)
+	stuck := rc.Teardown()
+	rc.CheckPanics("C06.c5")
+	rc.Check("C06.c6", "stuck-after-teardown", len(stuck) == 0, "tasks still blocked after teardown: %v", stuck)
+}
+
+// runC06Receipts: the delivery-receipt helper blocks on a correlated reply as well.
+func runC06Receipts(rc *RC) {
+	ch := rc.Ch
+	strat := rc.S.ConfigureStrategy()
+	e := rc.NewE2(E2Opts{Chunk: ch.Chance("workload", 1, 2)})
+	if e == nil {
+		return
+	}
+	if ch.Chance("workload", 1, 3) {
+		rc.S.PausePerm = 10
+	}
+	var unhandled []string
+	rh := &receipts.Handler{Unhandled: func(id string) { unhandled = append(unhandled, id) }}
+	sentinel := false
+	m := mux.New(e.NS, receipts.Handle(rh), mux.MessageFunc(stanza.ChatMessage, xml.Name{Local: "body"}, func(msg stanza.Message, t xmlstream.TokenReadEncoder) error {
+		if msg.ID == "sentinel" {
+			sentinel = true
+		}
+		return nil
+	}))
+	e.Serve(m)
+	type rcall struct {
+		id       string
+		timeout  time.Duration
+		cancelAt time.Duration
+		err      error
+		ctxErr   error
+		done     bool
+		retStep  int
+		ackStep  int // step at which the peer wrote the first receipt for this id (-1: never)
+	}
+	var calls []*rcall
+	n := ch.Range("workload", 1, 4)
+	for i := 0; i < n; i++ {
+		c := &rcall{id: fmt.Sprintf("m%d", i), timeout: []time.Duration{30 * time.Millisecond, 300 * time.Millisecond, 2 * time.Second}[ch.Int("workload", 3)], ackStep: -1}
+		if ch.Chance("workload", 1, 3) {
+			c.cancelAt = time.Duration(ch.Range("workload", 0, 20)) * 10 * time.Millisecond
+		}
+		calls = append(calls, c)
+	}
+	rc.Describe("receipts strategy=%s n=%d pause=%d", strat, n, rc.S.PausePerm)
+	for _, c := range calls {
+		rc.Describe("SendMessageElement id=%s timeout=%v cancelAt=%v", c.id, c.timeout, c.cancelAt)
+	}
+	rc.CaseKey = "receipts"
+	byID := map[string]*rcall{}
+	var tasks []*simrt.Task
+	for _, c := range calls {
+		c := c
+		byID[c.id] = c
+		tasks = append(tasks, rc.Spawn("req-"+c.id, func() {
+			ctx, cancel := context.WithTimeout(e.Ctx, c.timeout)
+			defer cancel()
+			if c.cancelAt > 0 {
+				rc.Spawn("canceller", func() { simrt.Sleep(c.cancelAt); rc.Fire("cancel"); cancel() })
+			}
+			c.err = rh.SendMessageElement(ctx, e.Sess, xmlstream.Wrap(xmlstream.Token(xml.CharData("hi")), xml.StartElement{Name: xml.Name{Local: "body"}}),
+				stanza.Message{ID: c.id, Type: stanza.ChatMessage, To: jid.MustParse("peer@example.net")})
+			c.done, c.ctxErr, c.retStep = true, ctx.Err(), rc.S.Steps
+		}))
+	}
+	delays := []time.Duration{0, 0, 0, 10 * time.Millisecond, 100 * time.Millisecond, time.Second, 4 * time.Second}
+	pending := 0
+	peer := rc.Spawn("peer", func() {
+		d := xml.NewDecoder(e.Peer)
+		depth := 0
+		for {
+			tok, err := d.Token()
+			if err != nil {
+				return
+			}
+			switch t := tok.(type) {
+			case xml.StartElement:
+				depth++
+				if depth != 2 || t.Name.Local != "message" {
+					continue
+				}
+				id := (Elem{Start: t}).Attr("id")
+				c := byID[id]
+				if c == nil {
+					continue
+				}
+				times := 1
+				switch ch.Int("peer", 6) {
+				case 0:
+					rc.Fire("peer-drop")
+					times = 0
+				case 1:
+					rc.Fire("peer-dup")
+					times = 2
+				}
+				for k := 0; k < times; k++ {
+					dl := delays[ch.Int("peer", len(delays))]
+					pending++
+					rc.Spawn("peer-ack", func() {
+						if dl > 0 {
+							simrt.Sleep(dl)
+						}
+						if c.ackStep < 0 {
+							c.ackStep = rc.S.Steps
+						}
+						e.PeerWrite(fmt.Sprintf(`<message from="peer@example.net/r"><received xmlns="urn:xmpp:receipts" id="%s"/></message>`, id))
+						pending--
+					})
+				}
+			case xml.EndElement:
+				depth--
+			}
+		}
+	})
+	peer.Daemon = true
+	allDone := func() bool {
+		for _, t := range tasks {
+			if !t.Done() {
+				return false
+			}
+		}
+		return true
+	}
+	st := rc.S.Run(allDone, 60000, 10*time.Minute)
+	rc.S.PausePerm = 0
+	rc.S.Run(func() bool { return pending == 0 && strings.HasPrefix(peer.Site, "read:") }, 20000, time.Minute)
+	rc.Spawn("peer-sentinel", func() {
+		e.PeerWrite(`<message id="sentinel" type="chat" from="peer@example.net/r"><body>s</body></message>`)
+	})
+	st2 := rc.S.Run(func() bool { return sentinel }, 20000, time.Minute)
+	for _, c := range calls {
+		rc.Evals["C06.c1"]++
+		if !c.done {
+			rc.Failf("C06.c1", "call-never-returned:receipts.SendMessageElement", "receipts.SendMessageElement id=%s (timeout %v) has not returned: %v stuck %v", c.id, c.timeout, st, rc.S.Stuck())
+			continue
+		}
+		if c.err == nil {
+			if c.ackStep < 0 || c.ackStep > c.retStep {
+				rc.Failf("C06.c1", "receipt-not-sent:receipts.SendMessageElement", "SendMessageElement id=%s returned nil at step %d but no receipt for that id had been sent (first at %d)", c.id, c.retStep, c.ackStep)
+			}
+		} else if c.ctxErr == nil || !errors.Is(c.err, c.ctxErr) {
+			rc.Failf("C06.c1", "error-not-ctx:receipts.SendMessageElement", "SendMessageElement id=%s returned %v but its context error is %v", c.id, c.err, c.ctxErr)
+		}
+	}
+	rc.Check("C06.c4", "sentinel-not-handled:receipts", sentinel, "a message sent after all receipt waits ended never reached its handler (serve loop stalled): %v stuck %v", st2, rc.S.Stuck())
 	rc.Spawn("peer-close", func() { io.WriteString(e.Peer, closeTag) })
 	rc.S.Run(func() bool { return e.ServeDone }, 20000, time.Minute)
 	stuck := rc.Teardown()
